@@ -6,8 +6,11 @@ C13 — checked models of the helper functions a malformed scenario / config val
 * `confutil.findTags`, `propertyTokenResolver`, `ResolveCustomTags` (string targets)
 * `templater.randInt`
 * the pool-map massage of `cli.readConfig`
+* `math.GCD` / `GCDM`, `config.SpreadNames` and the `make(…, 0, size)` of the scenario `decodeAmmo`
+* `templater.randString` / `str.RandStringRunes`
 
-`fixed = false` mirrors the unrepaired tree, `fixed = true` the behaviour after fixes/C13-*.diff.
+`fixed = false` mirrors the tree as found, `fixed = true` the repaired code (the `fix:` commits of /repo and
+fixes/C13-scenario-negative-weight.diff, fixes/C13-randstring-negative-length.diff).
 -/
 import Pandora.Model.C13Base
 
@@ -365,5 +368,132 @@ def poolsAcceptable : PoolsVal → Bool
   | .list items => items.all PoolItem.isMapping
   | .absent => false
   | .notList => false
+
+/-! ### scenario weights: `math.GCD`, `math.GCDM` (lib/math), `config.SpreadNames`, `decodeAmmo` -/
+
+/-- `for a > 0 && b > 0 { if a >= b { a = a % b } else { b = b % a } }; if a > b { return a }; return b` -/
+def gcdGo : Nat → Int → Int → Int
+  | 0, a, b => if a > b then a else b
+  | fuel + 1, a, b =>
+    if 0 < a ∧ 0 < b then
+      if b ≤ a then gcdGo fuel (Int.tmod a b) b else gcdGo fuel a (Int.tmod b a)
+    else if a > b then a else b
+
+/-- `math.GCD`; the measure of the loop is `a + b` (`gcdGo_fuel` in Proofs/C13Funcs.lean) -/
+def gcd64 (a b : Int) : Int := gcdGo (a.toNat + b.toNat + 1) a b
+
+/-- `math.GCDM(weights...)` on the REVERSED weight list (head = last weight):
+`res := GCD(w[l-2], w[l-1]); if l == 2 { return res }; return GCD(GCDM(w[:l-1]...), res)`; fewer than two weights: 0 -/
+def gcdmRev : List Int → Int
+  | [] => 0
+  | [_] => 0
+  | b :: a :: rest => if rest.isEmpty then gcd64 a b else gcd64 (gcdmRev (a :: rest)) (gcd64 a b)
+
+/-- Go `a / b` on ints (truncated), panics on a zero divisor -/
+def tdivC (a b : Int) : Res Int :=
+  if b = 0 then .panic "integer divide by zero" else .ok (Int.tdiv a b)
+
+/-- a weight of 0 (or no weight) counts as 1 -/
+def normWeight (w : Int) : Int := if w = 0 then 1 else w
+
+def mapRes {α β} (f : α → Res β) : List α → Res (List β)
+  | [] => .ok []
+  | a :: as =>
+    match f a with
+    | .ok b =>
+      match mapRes f as with
+      | .ok bs => .ok (b :: bs)
+      | .err c => .err c
+      | .panic w => .panic w
+      | .fatal w => .fatal w
+    | .err c => .err c
+    | .panic w => .panic w
+    | .fatal w => .fatal w
+
+/-- `config.SpreadNames`: how many copies of each scenario (scenario names are distinct) -/
+def spreadCounts (weights : List Int) : Res (List Int) :=
+  match weights with
+  | [] => .ok []
+  | [_] => .ok [1]
+  | _ =>
+    let ws := weights.map normWeight
+    let div := gcdmRev ws.reverse
+    mapRes (fun w => tdivC w div) ws
+
+def sumInt (l : List Int) : Int := l.foldr (· + ·) 0
+
+/-- pointer size: `make([]*Scenario, 0, size)` asks for `8 * size` bytes -/
+def makeCapC (size : Int) : Res Unit :=
+  if size < 0 then .panic "makeslice: cap out of range"
+  else if size * 8 > maxAlloc then .panic "makeslice: cap out of range"
+  else if size * 8 > memCap then .fatal "out of memory"
+  else .ok ()
+
+/-- `decodeAmmo` (http and grpc scenario providers) as far as the weights go: the copies per scenario.
+The sum is taken without wrap-around (a wrapped total needs more than 2^63 copies). -/
+def spread (fixed : Bool) (weights : List Int) : Res (List Int) :=
+  if fixed && weights.any (fun w => decide (w < 0)) then .err "weight"
+  else match spreadCounts weights with
+    | .ok counts =>
+      match makeCapC (sumInt counts) with
+      | .ok () => .ok counts
+      | r => r.castFail
+    | r => r
+
+/-! ### `templater.randString`, `str.RandStringRunes` -/
+
+/-- the 64 default letters of lib/str -/
+def defaultLetters : Nat := 64
+
+/-- `make([]rune, n)` -/
+def makeRunesC (n : Int) : Res Unit :=
+  if n < 0 then .panic "makeslice: len out of range"
+  else if n * 4 > maxAlloc then .panic "makeslice: len out of range"
+  else if n * 4 > memCap then .fatal "out of memory"
+  else .ok ()
+
+/-- one letter: `letterRunes[randSource.Intn(len(letterRunes))]`; `nLetters` = number of runes of the `letters` argument -/
+def pickLetter (nLetters : Nat) (rnd : Nat) : Res Nat :=
+  let k := if nLetters = 0 then defaultLetters else nLetters
+  (intnC k rnd).bind fun i => indexC (List.range k) i
+
+/-- `randString(cnt, letters)` after `numbers.ParseInt`: the length (in runes) of the result -/
+def randStringLen (fixed : Bool) (n : Int) : Res Nat :=
+  let n := if n = 0 then 1 else n
+  if fixed && decide (n < 0) then .err "length"
+  else match makeRunesC n with
+    | .ok () => .ok n.toNat
+    | r => r.castFail
+
+/-! ### an empty list item (`-` / null) in a scenario file
+
+yaml.v2 + mapstructure decode it to the zero value: a nil interface where a plugin is expected
+(variable source, post-processor, grpc pre-processor), an empty struct for a request, call or scenario. -/
+
+inductive NullSite where
+  | variableSource      -- `variable_sources: [null]`
+  | postprocessor       -- `postprocessors: [null]` of a request or call
+  | grpcPreprocessor    -- `preprocessors: [null]` of a call
+  | request             -- `requests: [null]` / `calls: [null]`: a request without name
+  | scenario            -- `scenarios: [null]`: a scenario without requests
+  | templater           -- `templater: null`: the default templater is used
+  | httpPreprocessor    -- `preprocessor: null`: a nil `*Preprocessor`, whose methods test for nil
+  deriving Repr, DecidableEq
+
+/-- what provider construction does with it. `fixed = false` (the tree as found): `ExtractVariableStorage` calls
+`source.Init()` on the nil interface; nil processors are accepted and the gun calls `Process` on them at its first shot.
+`fixed = true`: fixes/C13-scenario-empty-plugin-item.diff (`checkNoEmptyItems` in `DecodeMap`). -/
+def nullItem (fixed : Bool) : NullSite → Res Unit
+  | .variableSource => if fixed then .err "empty-item" else .panic "invalid memory address or nil pointer dereference"
+  | .postprocessor => if fixed then .err "empty-item" else .ok ()
+  | .grpcPreprocessor => if fixed then .err "empty-item" else .ok ()
+  | .request => .ok ()
+  | .scenario => .ok ()
+  | .templater => .ok ()
+  | .httpPreprocessor => .ok ()
+
+/-- is a nil plugin left in the decoded configuration (to be dereferenced later by the provider or the gun)? -/
+def nilPluginLeft (fixed : Bool) (site : NullSite) : Bool :=
+  (nullItem fixed site).isOk && (site == .variableSource || site == .postprocessor || site == .grpcPreprocessor)
 
 end Pandora.Model.C13
